@@ -451,6 +451,7 @@ pub fn record_graph<A>(
     ps: &dyn Fn(&A::State) -> Value,
     out: &mut dyn Write,
     real_counts: bool,
+    rep: Option<&dyn Fn(&ActorModelState<A, Hist>) -> ActorModelState<A, Hist>>,
 ) where
     A: Actor + Clone + Send + Sync + 'static,
     A::Msg: MsgCodec,
@@ -476,7 +477,7 @@ pub fn record_graph<A>(
             // still emit a record so that the judge sees the initial state
             let rec = json!({"sys": sysi, "init": true, "inb": false, "expanded": false, "state": pj, "edges": [],
                 "ignored": [], "next_steps_ok": true, "len": s.network.len(), "iter_all": [], "iter_deliv": [],
-                "stream": stream_of(&s), "iter_all_truncated": false});
+                "stream": stream_of(&s), "iter_all_truncated": false, "has_rep": false, "rep_panicked": false, "rep": pj});
             serde_json::to_writer(&mut *out, &rec).unwrap();
             out.write_all(b"\n").unwrap();
         }
@@ -537,10 +538,18 @@ pub fn record_graph<A>(
             }
         }
         let iter_deliv: Vec<Value> = s.network.iter_deliverable().map(|e| env_json(e.src, e.dst, e.msg)).collect();
+        // C10: the provided representative of the state (where the state type supports it)
+        let (has_rep, rep_panicked, rep_json) = match rep {
+            None => (false, false, pj.clone()),
+            Some(f) => match std::panic::catch_unwind(std::panic::AssertUnwindSafe(|| f(&s))) {
+                Ok(r) => (true, false, state_json(&r, ps)),
+                Err(_) => (true, true, pj.clone()),
+            },
+        };
         let rec = json!({"sys": sysi, "init": init_keys.contains(&key), "inb": true, "expanded": true, "state": pj,
             "edges": edges, "ignored": ignored, "next_steps_ok": next_steps_ok, "len": s.network.len(),
             "iter_all": iter_all, "iter_all_truncated": iter_all_truncated, "iter_deliv": iter_deliv,
-            "stream": stream_of(&s)});
+            "stream": stream_of(&s), "has_rep": has_rep, "rep_panicked": rep_panicked, "rep": rep_json});
         serde_json::to_writer(&mut *out, &rec).unwrap();
         out.write_all(b"\n").unwrap();
     }
@@ -573,14 +582,15 @@ pub fn record_system(sysi: usize, sys: &SysJ, out: &mut dyn Write, real_counts: 
         "" | "none" => {
             let actors: Vec<TableActor<u16>> = sys.actors.iter().map(TableActor::new).collect();
             let m = configure(sys, actors);
-            record_graph(sysi, sys, &m, &ps_plain, out, real_counts);
+            let rep = |s: &ActorModelState<TableActor<u16>, Hist>| s.representative();
+            record_graph(sysi, sys, &m, &ps_plain, out, real_counts, Some(&rep));
         }
         "choice_l" => {
             // Choice<T, Never>
             let actors: Vec<Choice<TableActor<u16>, Never>> =
                 sys.actors.iter().map(|a| Choice::new(TableActor::new(a))).collect();
             let m = configure(sys, actors);
-            record_graph(sysi, sys, &m, &|s: &Choice<u16, Never>| json!(*s.get()), out, real_counts);
+            record_graph(sysi, sys, &m, &|s: &Choice<u16, Never>| json!(*s.get()), out, real_counts, None);
         }
         "choice_lr" => {
             // Choice<T, Choice<T, Never>>: even actors on the left, odd ones on the right
@@ -602,7 +612,7 @@ pub fn record_system(sysi: usize, sys: &SysJ, out: &mut dyn Write, real_counts: 
                 Choice::L(x) => json!(*x),
                 Choice::R(r) => json!(*r.get()),
             };
-            record_graph(sysi, sys, &m, &ps, out, real_counts);
+            record_graph(sysi, sys, &m, &ps, out, real_counts, None);
         }
         "choice_lrr" => {
             // three positions: L, R.L, R.R.L
@@ -623,7 +633,7 @@ pub fn record_system(sysi: usize, sys: &SysJ, out: &mut dyn Write, real_counts: 
                 Choice::R(Choice::L(x)) => json!(*x),
                 Choice::R(Choice::R(r)) => json!(*r.get()),
             };
-            record_graph(sysi, sys, &m, &ps, out, real_counts);
+            record_graph(sysi, sys, &m, &ps, out, real_counts, None);
         }
         "register_server" => {
             type RA = RegisterActor<TableActor<RegisterMsg<u64, char, u16>>>;
@@ -633,7 +643,7 @@ pub fn record_system(sysi: usize, sys: &SysJ, out: &mut dyn Write, real_counts: 
                 RegisterActorState::Server(x) => json!(*x),
                 other => json!(format!("{:?}", other)),
             };
-            record_graph(sysi, sys, &m, &ps, out, real_counts);
+            record_graph(sysi, sys, &m, &ps, out, real_counts, None);
         }
         "wo_register_server" => {
             type WA = WORegisterActor<TableActor<WORegisterMsg<u64, char, u16>>>;
@@ -643,7 +653,7 @@ pub fn record_system(sysi: usize, sys: &SysJ, out: &mut dyn Write, real_counts: 
                 WORegisterActorState::Server(x) => json!(*x),
                 other => json!(format!("{:?}", other)),
             };
-            record_graph(sysi, sys, &m, &ps, out, real_counts);
+            record_graph(sysi, sys, &m, &ps, out, real_counts, None);
         }
         "script" => {
             let actors: Vec<Vec<(Id, u16)>> = sys
@@ -652,7 +662,7 @@ pub fn record_system(sysi: usize, sys: &SysJ, out: &mut dyn Write, real_counts: 
                 .map(|sc| sc.iter().map(|e| (Id::from(e.dst as usize), e.msg)).collect())
                 .collect();
             let m = configure(sys, actors);
-            record_graph(sysi, sys, &m, &|s: &usize| json!(*s), out, real_counts);
+            record_graph(sysi, sys, &m, &|s: &usize| json!(*s), out, real_counts, None);
         }
         w => panic!("wrap {w}"),
     }
